@@ -239,8 +239,27 @@ func runC08(c *Ctx) {
 		return ""
 	}
 	e1, e2 := errInjected, errors.New("second error value")
+	corr := &Batch{c: c}
+	defer corr.Flush()
 	one := func(idx int, fam string, doc []byte) {
 		c.fam(fam, "cases", 1)
+		// the Lean stream machine + block-phase line parser against the real BlockParser (every schedule kind, a fault)
+		if len(doc) <= 20000 {
+			scheds := schedulesFor(c, doc, idx)
+			// the model's buffer is a list: long inputs are slow there (and many small reads cost quadratic time),
+			// so inputs above 1500 bytes get one schedule (whole input per read, with or without EOF) and no fault
+			if len(doc) > 1500 {
+				blocksCorr(c, corr, doc, scheds[idx%2], -1, 0)
+			} else {
+				for _, s := range scheds {
+					blocksCorr(c, corr, doc, s, -1, 0)
+				}
+				if len(doc) > 0 {
+					blocksCorr(c, corr, doc, scheds[idx%len(scheds)], idx%(len(doc)+1), 3+idx%5)
+				}
+				memMetaCorr(c, corr, doc)
+			}
+		}
 		nt := bytes.IndexByte(doc, 0) >= 0 || bytes.IndexByte(doc, '\r') >= 0 || !isASCII(doc) || strings.Contains(string(doc), "\n\n")
 		for si, s := range schedulesFor(c, doc, idx) {
 			if len(doc) > 3000 && s.name == "1-byte" && idx%4 != 0 {
